@@ -2,6 +2,8 @@ SPECIFICATION Spec
 CONSTANTS
   States = {"genesis", "rich"}
   Auths = {"owner"}
+  EdgeStates = {"rich"}
+  EdgeAuths = {"noauth"}
   MaxPaths = 1
   MaxVariants = 2
 INVARIANT Emit
